@@ -302,7 +302,8 @@ def instantiate(tag, ex, pairs, timeout=900):
             "Definition total_%d_%d := fun re nat => C03_ser_total re nat sp_%d %d%%N simple_%d_%d.\n"
             "Definition idem_%d_%d := fun re nat => C03_rt_idempotent re nat sp_%d %d%%N simple_%d_%d.\n"
             "Definition fixp_%d_%d := fun re nat => C03_rt_fixed_point re nat sp_%d %d%%N simple_%d_%d.\n"
-            % (i, t, i, t, i, t, i, t, i, t, i, t, i, t, i, t, i, t, i, t, i, t))
+            "Definition cont_%d_%d := fun re nat => C03_rt_contains re nat sp_%d %d%%N simple_%d_%d.\n"
+            % (i, t, i, t, i, t, i, t, i, t, i, t, i, t, i, t, i, t, i, t, i, t, i, t, i, t, i, t))
         n += 1
     p = os.path.join(vlib.WORK, "cases", tag)
     os.makedirs(p, exist_ok=True)
@@ -318,7 +319,7 @@ def run(ctx):
     quick = ctx.tier == "quick"
     T = "q" if quick else "t"
     ctx.checker_cmd = ("make theories/Props/C03.vo; coqc work/cases/c03inst%s/inst.v (rt_simple by vm_compute on the "
-                       "real IR + instantiation of C03_ser_total / C03_rt_idempotent / C03_rt_fixed_point)" % T)
+                       "real IR + instantiation of C03_ser_total / C03_rt_idempotent / C03_rt_fixed_point / C03_rt_contains)" % T)
     ctx.trusted = [
         "Coq 8.16.1 kernel + vm_compute",
         "IR/Serde.v as the meaning of serde on generated types (hand model; tied to compiled code by K5 on every run, "
@@ -330,7 +331,8 @@ def run(ctx):
     ctx.assumptions = [
         "instance domain: integer literals within i64/u64, no integral-valued float literal at integer positions (DESIGN 3.2)",
         "theorems are about the model of generated code for the class rt_simple (no untagged enum, no flattened member, "
-        "String map keys, no Option<Option<_>>); outside it only the direct evaluation and K5 apply",
+        "String map keys, no Option<Option<_>>); outside it only the direct evaluation and K5 apply; validity of the "
+        "output is decided by the oracle on compiled code, not by a theorem",
         "declared_only of the theorems is stated on the model (every object key is a declared wire name, structs are "
         "given as objects, unit variants in their canonical form); the direct evaluation restricts v by the schema",
     ]
@@ -507,9 +509,31 @@ def run(ctx):
             # (the theorems predict the fixed point and containment, not validity of the output)
             bad = [r for r in viol if set(r["kinds"]) - {"invalid-output"} and res.get((ex.docs.index(r["document"]), r["definition"]))]
             ctx.oblige("no departure of compiled code on an rt_simple type", not bad, json.dumps(bad[:1])[:1500])
-            if coq_ok and {"C03_ser_total", "C03_rt_idempotent", "C03_rt_fixed_point"} <= set(thms):
+            # the model-level hypothesis decl_only of C03_rt_contains holds on the schema-level declared-only instances
+            try:
+                sel = [it for it in cand if it["declared_only"] and res.get((it["m"], it["name"]))]
+                hdr = tocoq.COQ_HEADER
+                tocoq.COQ_HEADER = hdr + "From Typify Require Import Check.RoundTrip.\n"
+                try:
+                    dres = k5.eval_cases("c03decl" + T, ex.dumps, [(it["m"], it["tid"], it["v"]) for it in sel],
+                                         fn='(fun (_ _ : tbl) (T : space) (f : N) (i : id) (j : json) => if decl_only T (N.to_nat f) i j then "T"%string else "F"%string)',
+                                         shard=100)
+                finally:
+                    tocoq.COQ_HEADER = hdr
+                exc = [it for it, r in zip(sel, dres) if r != "T"]
+                ctx.coverage["decl_only_evaluations"] = len(sel)
+                ctx.coverage["decl_only_true"] = len(sel) - len(exc)
+                ctx.coverage["decl_only_exceptions_sample"] = [
+                    {"definition": ex.docs[it["m"]]["definitions"][it["name"]], "instance": it["v"]} for it in exc[:3]]
+                ctx.oblige("hypothesis decl_only of C03_rt_contains holds for %d/%d declared-only valid instances of "
+                           "rt_simple types (exceptions: null-payload unit variants, finding F3)" % (
+                               len(sel) - len(exc), len(sel)),
+                           len(sel) >= 50 and len(exc) * 10 <= len(sel), json.dumps(ctx.coverage["decl_only_exceptions_sample"])[:1200])
+            except Exception as e:  # noqa
+                ctx.oblige("decl_only evaluates on the explored instances", False, str(e)[-1200:])
+            if coq_ok and {"C03_ser_total", "C03_rt_idempotent", "C03_rt_fixed_point", "C03_rt_contains"} <= set(thms):
                 ok, detail, n = instantiate("c03inst" + T, ex, yes if not quick else yes[:150])
-                ctx.oblige("kernel accepts the three theorems instantiated on the real IR of %d definitions" % n, ok, detail)
+                ctx.oblige("kernel accepts the four theorems instantiated on the real IR of %d definitions" % n, ok, detail)
         except Exception as e:  # noqa
             ctx.oblige("rt_simple evaluates on the dumped IRs", False, str(e)[-1500:])
     else:
